@@ -11,6 +11,8 @@ CONSTANTS
   BlockSize = 8192
   Pos <- MCPos
   CoverKinds = {"PushBlobChunked", "Write", "Commit", "Cancel", "RawPatch", "RawPut", "RawStatus", "GetBlob", "DeleteBlob"}
+  PrintKinds = {}
+  PrintMinMans = 0
 CONSTRAINT BufBound
 VIEW CoverView
 CHECK_DEADLOCK FALSE
